@@ -4,3 +4,7 @@
 (declare-fun time_before (S_time_Time S_time_Time) Bool)
 (declare-fun time_add (S_time_Time Int) S_time_Time)
 (declare-fun time_fmt (S_time_Time Str) Str)   ; Time.Format(layout)
+(declare-fun path_join (Str Str) Str)
+(declare-fun rot_time (Int S_time_Time) Int)   ; Truncate(interval).Unix()
+(declare-fun time_trunc (S_time_Time Int) S_time_Time)
+(declare-fun time_unix (S_time_Time) Int)
